@@ -949,6 +949,7 @@ func main() {
 		byKey[f.ex.Name()+"\x00"+f.rel] = f
 	}
 	initMeta()
+	cfgByName := configurableByName()
 	if o.Replay != "" {
 		// metadata types that only occur in the harvest get their sample from a silent pre-pass
 		for _, f := range fx {
@@ -1011,7 +1012,23 @@ func main() {
 					continue
 				}
 				out.Emit(l, runWfmt(scratch, hx.UnHex(t[1])))
-			case "fname":
+			case "harvestv", "boundaryv":
+				f, ok := byKey[hx.UnHex(t[1])+"\x00"+hx.UnHex(t[3])]
+				ce, ok2 := cfgByName[hx.UnHex(t[1])]
+				if !ok || !ok2 || (t[0] == "harvestv" && len(t) != 4) || (t[0] == "boundaryv" && len(t) != 5) {
+					out.Emit(l, "pk=0 purls=0 issues=fixture-missing bad=- drop=-")
+					continue
+				}
+				vex := buildVariant(ce, hx.UnHex(t[2]))
+				if vex == nil {
+					out.Emit(l, "pk=0 purls=0 issues=variant-missing bad=- drop=-")
+					continue
+				}
+				if t[0] == "harvestv" {
+					out.Emit(l, runHarvest(fixture{vex, f.dir, f.rel}, nil))
+				} else {
+					out.Emit(l, runBoundary(fixture{vex, f.dir, f.rel}, hx.UnHex(t[4])))
+				}
 				if len(t) != 3 {
 					out.Emit(l, "bad-op")
 					continue
@@ -1085,6 +1102,27 @@ func main() {
 	// completeness of the harvest's extractor set against the public selection API
 	for _, k := range reachKinds {
 		out.Emit("reach "+k, runReach(exs, k))
+	}
+	// non-default options: every Config field switched, over all fixtures of the extractor and the boundary names
+	perExV := map[string]int{}
+	for _, f := range fx {
+		ce, ok := cfgByName[f.ex.Name()]
+		if !ok {
+			continue
+		}
+		for _, v := range variantsOf(ce) {
+			vex := buildVariant(ce, v)
+			if vex == nil {
+				continue
+			}
+			out.Emit("harvestv "+hx.Hex(f.ex.Name())+" "+hx.Hex(v)+" "+hx.Hex(f.rel), runHarvest(fixture{vex, f.dir, f.rel}, nil))
+			if yields[f.ex.Name()+"\x00"+f.rel] && perExV[f.ex.Name()+v] < 2 && !strings.Contains(v, "=1") && !strings.Contains(v, "=64") {
+				perExV[f.ex.Name()+v]++
+				for _, sh := range boundaryShapes {
+					out.Emit("boundaryv "+hx.Hex(f.ex.Name())+" "+hx.Hex(v)+" "+hx.Hex(f.rel)+" "+hx.Hex(sh), runBoundary(fixture{vex, f.dir, f.rel}, sh))
+				}
+			}
+		}
 	}
 	// identities derived from file / directory names (jar file names, nix store directories, homebrew cellar directories)
 	for _, k := range fnameKinds {
